@@ -31,7 +31,9 @@ class InjectedFault(Exception):
 
 
 def _bits(a):
-    return np.ascontiguousarray(np.asarray(a, dtype=float)).tobytes()
+    # (+ 0.0 maps the negative zero to the positive one: -0.0 == 0.0 numerically, but their bytes differ, and mesh
+    # arithmetic produces both spellings of a coordinate that is exactly zero)
+    return np.ascontiguousarray(np.asarray(a, dtype=float) + 0.0).tobytes()
 
 
 def safe(fn):
@@ -471,8 +473,8 @@ class RunMonitor:
         tol = tol_mesh / 2.0
         nlog = fl.X_max_idx + 1
         logged = fl.X[:nlog]
-        logged_keys = set(map(lambda r: r.tobytes(), np.round(logged / tol))) if nlog else set()
-        logged_bits = set(map(lambda r: r.tobytes(), np.ascontiguousarray(logged))) if nlog else set()
+        logged_keys = set(map(_bits, np.round(logged / tol))) if nlog else set()
+        logged_bits = set(map(_bits, logged)) if nlog else set()
         want17 = "C17" in self.want
         if want17:
             self.c("C17.filter_calls")
@@ -492,21 +494,21 @@ class RunMonitor:
                 uq = np.unique(out, axis=0)
                 if uq.shape[0] != nout:
                     self.v("C17/filter-output-duplicates", site=site, nout=nout, distinct=int(uq.shape[0]))
-                okeys = [r.tobytes() for r in np.round(out / tol)]
+                okeys = [_bits(r) for r in np.round(out / tol)]
                 stale = [i for i, kk in enumerate(okeys) if kk in logged_keys]
                 if stale:
                     self.c("C17.fresh_violations", len(stale))
                     self.v("C17/fresh-not-filtered", site=site, row=out[stale[0]], n_stale=len(stale), nout=nout)
                 # subset
-                src = set(r.tobytes() for r in np.ascontiguousarray(clamped))
-                notsub = [i for i in range(nout) if np.ascontiguousarray(out[i]).tobytes() not in src]
+                src = set(_bits(r) for r in clamped)
+                notsub = [i for i in range(nout) if _bits(out[i]) not in src]
                 if notsub and not scripted:
                     self.v("C17/filter-output-not-subset", site=site, row=out[notsub[0]], proj=proj)
         if want17 and nin:
             # kinds present in the input (non-triviality) + completeness (recorded, not judged)
-            inkeys = [r.tobytes() for r in np.round(clamped / tol)]
+            inkeys = [_bits(r) for r in np.round(clamped / tol)]
             n_stale_in = sum(1 for kk in inkeys if kk in logged_keys)
-            n_dup_in = nin - len(set(r.tobytes() for r in np.ascontiguousarray(clamped)))
+            n_dup_in = nin - len(set(_bits(r) for r in clamped))
             if n_stale_in:
                 self.c("C17.in_rows_already_evaluated", n_stale_in)
             if n_dup_in:
@@ -521,7 +523,7 @@ class RunMonitor:
         # remember which filter output carried each row (for repeat-eval attribution)
         if site in ("init", "search", "poll"):
             for r in np.ascontiguousarray(out):
-                bb_ = r.tobytes()
+                bb_ = _bits(r)
                 self.last_filter_carry[bb_] = {"site": site, "was_logged": bb_ in logged_bits}
 
     # ------------------------------------------------------ seam: BADS methods
@@ -1266,7 +1268,7 @@ class RunMonitor:
         n = fl.Xn + 1
         d = {}
         for i in range(n):
-            d.setdefault(fl.X[i].tobytes(), []).append(i)
+            d.setdefault(_bits(fl.X[i]), []).append(i)
         return d
 
     @safe
@@ -1282,7 +1284,7 @@ class RunMonitor:
             self.v("C15/noise-vector-length-mismatch", where=where, n=int(X.shape[0]), ns2=int(s2a.shape[0]))
             s2a = None
         for r in range(X.shape[0]):
-            rows = idxmap.get(np.ascontiguousarray(X[r]).tobytes())
+            rows = idxmap.get(_bits(X[r]))
             self.c("C15.rows_checked")
             if not rows:
                 self.v("C15/training-input-not-logged", where=where, row=X[r])
